@@ -343,7 +343,7 @@ pub fn c14(rng: &mut Rng, thorough: bool, idx: u64) -> Spec {
         old.set("autoreload", 200);
     }
     let variant = if idx % 2 == 0 {
-        *rng.pick(&["unchanged", "add_pool", "remove_pool", "change_servers", "change_general", "add_pool_server_down", "swap_roles"])
+        *rng.pick(&["unchanged", "add_pool", "remove_pool", "change_servers", "change_general", "add_pool_server_down", "swap_roles", "change_user_pool_size", "change_pool_mode", "change_user_password"])
     } else {
         *rng.pick(&["syntax", "semantic_role", "semantic_role_capitalised", "semantic_two_primaries", "semantic_min_pool", "semantic_default_shard", "semantic_shard_id", "semantic_dup_server", "missing", "readerror", "truncated"])
     };
@@ -382,6 +382,24 @@ pub fn c14(rng: &mut Rng, thorough: bool, idx: u64) -> Spec {
         }
         "change_general" => {
             new.set("ban_time", 77);
+        }
+        "change_user_pool_size" => {
+            for p in new.pools.iter_mut().filter(|p| p.name == "db2") {
+                p.users[0].pool_size = 3;
+            }
+        }
+        "change_pool_mode" => {
+            for p in new.pools.iter_mut().filter(|p| p.name == "db2") {
+                p.mode = "session".into();
+            }
+        }
+        "change_user_password" => {
+            // the client-side password only: the servers keep theirs
+            for p in new.pools.iter_mut().filter(|p| p.name == "db2") {
+                p.users[0].server_username = Some("app".into());
+                p.users[0].server_password = Some("apppw".into());
+                p.users[0].password = Some("newpw".into());
+            }
         }
         "swap_roles" => {
             new.pools[0].shards[0].servers[0].2 = "replica".into();
@@ -567,11 +585,26 @@ pub fn c14(rng: &mut Rng, thorough: bool, idx: u64) -> Spec {
         p.simple(s);
     }
     p.steps.push(Step::Terminate);
-    let mut c4 = client(id, "app", "db2", "apppw", 0, p.steps);
+    let mut c4 = client(id, "app", "db2", if variant == "change_user_password" { "newpw" } else { "apppw" }, 0, p.steps);
     c4.start = When::After { ev: "reloaded".into(), delay_ms: rng.range(5, 50) };
     c4.role = "probe".into();
     let db2_late_client = id;
     clients.push(c4);
+    let mut old_password_client = 0;
+    if variant == "change_user_password" {
+        // the password of the old file is no longer good for a new login
+        id += 1;
+        let mut p = Prog::new(id);
+        p.new_txn();
+        let s = p.select(1, 0, "");
+        p.simple(s);
+        p.steps.push(Step::Terminate);
+        let mut c = client(id, "app", "db2", "apppw", 0, p.steps);
+        c.start = When::After { ev: "reloaded".into(), delay_ms: rng.range(5, 50) };
+        c.role = "probe".into();
+        old_password_client = id;
+        clients.push(c);
+    }
     // and one that asks pool db for each role after the reload
     id += 1;
     let mut p = Prog::new(id);
@@ -609,6 +642,7 @@ pub fn c14(rng: &mut Rng, thorough: bool, idx: u64) -> Spec {
     spec.params.insert("trigger".into(), serde_json::json!(trigger));
     spec.params.insert("db3_client".into(), serde_json::json!(db3_client));
     spec.params.insert("db2_late_client".into(), serde_json::json!(db2_late_client));
+    spec.params.insert("old_password_client".into(), serde_json::json!(old_password_client));
     spec.params.insert("db_role_client".into(), serde_json::json!(db_role_client));
     if rng.chance(0.5) {
         spec.yield_sites.push(("pool.from_config.before_store".into(), 3));
